@@ -10,6 +10,7 @@ import (
 	"os"
 	"path/filepath"
 	"runtime"
+	"strconv"
 	"strings"
 	"time"
 
@@ -31,6 +32,20 @@ func main() {
 // Apply mirrors props.c20Apply (kept textually in sync; both are trivial dispatchers).
 func Apply(dir, op string) error {
 	p := strings.Split(op, ":")
+	for i := range p { // %XX stands for the byte XX (as in props.opSplit)
+		var b []byte
+		for j := 0; j < len(p[i]); j++ {
+			if p[i][j] == '%' && j+3 <= len(p[i]) {
+				if v, err := strconv.ParseUint(p[i][j+1:j+3], 16, 8); err == nil {
+					b = append(b, byte(v))
+					j += 2
+					continue
+				}
+			}
+			b = append(b, p[i][j])
+		}
+		p[i] = string(b)
+	}
 	switch p[0] {
 	case "board":
 		s, err := mobius.NewFlatNews(filepath.Join(dir, "MessageBoard.txt"))
